@@ -48,6 +48,9 @@ func TypeSig(t *XType) string {
 	if t.Patterns != 0 {
 		fmt.Fprintf(&sb, " patterns=%d", t.Patterns)
 	}
+	if t.Posix != 0 {
+		fmt.Fprintf(&sb, " posix=%d", t.Posix)
+	}
 	if len(t.Union) > 0 {
 		sb.WriteString(" union{")
 		for i, u := range t.Union {
